@@ -34,6 +34,14 @@ CHECKS["C02"] = dict(level="model_checking", engine="E1-enum",
    technique="exhaustive enumeration of the documented architecture table x formats x override, all optional-version-component combinations, <=1/2-deviation scalar fields, description shapes, relation-kind subsets and extras on the real packagers; control metadata parsed by harness parsers and compared with a reference Meta model",
    text="Exhaustive over every GOARCH of the documentation (+undocumented pass-through values) x five formats x with/without <format>.arch; all 192 combinations of v-prefix/epoch/prerelease/metadata/release/schema; every scalar field x {ASCII, Unicode, punctuation} (thorough: pairs); 7 description shapes; every single relation kind and every pair of the 8 kinds in plain / versioned / same-name-twice form plus all 8 at once, rendered in each format's own syntax; every format extra alone and all together; non-linux platforms. Each is built fresh and again after ConventionalFileName on the same Info; deb/ipk control, rpm header tags, apk/archlinux .PKGINFO are parsed by the harness (dpkg-deb -f as second opinion) and compared field by field, including 'a relation kind without a slot must not surface elsewhere'. The architecture table is read from the documentation of the tree under test.",
    note="Trusted: model/meta.go (version syntax per format, relation slots), pkgread parsers, the documentation table as the statement of the expected translation (ipk has none: only override/pass-through judged).", ref="§3 C02")
+CHECKS["C14"] = dict(level="model_checking", engine="E1-enum",
+   technique="exhaustive enumeration of the version grammar through the real WithDefaults vs a reference grammar; all ordering pairs on versions decoded from really built packages vs ports of dpkg/rpm comparison (dpkg --compare-versions as second opinion)",
+   text="All 5376 strings of [v]N[.N[.N]][-pre][+meta] over N in {0,1,2,10}, 7 prerelease and 3 metadata shapes, plus 24 near-misses and the empty version, x explicit prerelease/metadata x schema {default, semver, none} go through nfpm.WithDefaults and are compared with the documented split. For deb, ipk and rpm every (prerelease, its release) pair over 64 bases x 7 prereleases x release x metadata, every ordered pair of the 64 numeric bases and every epoch pair are packaged for real and the decoded version strings compared with ports of the Debian and rpm algorithms. 256 version configurations x 5 formats are packaged twice from one effective-settings object and must state the same version.",
+   note="Trusted: model/version.go (semver grammar, DebCompare, RPMVerCmp ports); dpkg --compare-versions agreeing with the port on every pair is enforced (disagreement = harness error).", ref="§3 C14")
+CHECKS["C15"] = dict(level="model_checking", engine="E1-enum",
+   technique="exhaustive enumeration of version-component x architecture x format combinations: ConventionalFileName then Package on one effective-settings object, name re-derived from the decoded metadata; the built nfpm binary driven over all target spellings x -p",
+   text="All 96 epoch/prerelease/metadata/release/schema/v-prefix combinations x {amd64, arm5, override} and every documented GOARCH (base version) x 5 formats: the conventional name is asked first, then the package is built from the same settings; the name must equal the one the format's naming rule derives from the metadata inside that package, end in the conventional extension, be stable, and the bytes must equal a build without the name call. The nfpm binary built from the tree is run for target in {file, existing dir, empty, file with another format's extension, file in a missing dir} x -p given/absent x 5 formats x 2 versions: exactly the requested file (or conventional name in the dir / cwd) is created, with the right packager; failing invocations leave nothing behind.",
+   note="Trusted: naming rules as transcribed in props/c15.go (epoch not part of deb/ipk/archlinux names); pkgread parsers; non-linux platforms excluded.", ref="§3 C15")
 NOT_YET = {}
 ALL = ["C%02d" % i for i in range(1, 18)]
 
